@@ -606,14 +606,16 @@ pub fn check(prop: &str, scenarios: &[&'static dyn Scenario], tier: Tier, level:
         "dsim: property={prop} tier={} seed={base_seed} runs={total_runs} distinct_nontrivial={nontrivial} violations={n_viol} known={n_known} wall={wall:.1}s",
         tier.name()
     );
-    if !harness_errors.is_empty() {
-        for h in harness_errors.iter().take(10) {
-            eprintln!("HARNESS-ERROR: {h}");
-        }
-        return 2;
+    for h in harness_errors.iter().take(10) {
+        eprintln!("HARNESS-ERROR: {h}");
     }
+    // a violation with its replay file stands on its own (it is re-run in a fresh process before
+    // it is reported); a harness error next to it — typically the determinism canary tripping over
+    // the very nondeterminism a change introduced — is printed but does not turn exit 1 into exit 2
     if n_viol > 0 {
         1
+    } else if !harness_errors.is_empty() {
+        2
     } else {
         0
     }
